@@ -275,13 +275,38 @@ func runExploreCase(c *ECase) (line string, viol []Violation, info map[string]in
 			}
 			_ = exp.ApplyConfig(cm2.ConfigInfo())
 		case "release":
+			failed := uint64(0)
+			checkFailed := false
 			if len(rig.blocked) > 0 {
 				bp := rig.blocked[0]
 				rig.blocked = rig.blocked[1:]
 				rig.add(eEvent{kind: 4, probe: bp.num, ok: op.Ok, scraped: op.Scraped, total: op.Total})
 				bp.ch <- op
+				// a failed probe of a listed, asked, not yet successfully probed target (current incarnation, no
+				// other probe of it in flight): what the explorer reports for it must not look like a success
+				if !op.Ok && listed[bp.hash] && asked[bp.hash] && !succeeded[bp.hash] && probeInc[bp.num] == inc[bp.hash] && len(inflight[bp.hash]) <= 1 {
+					failed, checkFailed = bp.hash, true
+				}
 			}
 			rig.mu.Unlock()
+			if checkFailed {
+				for w := 0; w < 8; w++ {
+					time.Sleep(time.Millisecond)
+					// the target has been asked for already, so this Get does not start anything
+					if st := exp.Get(failed); st == nil || st.Health != "unknown" {
+						break
+					}
+				}
+				rig.mu.Lock()
+				scan()
+				stillFailed := !succeeded[failed] && listed[failed]
+				rig.mu.Unlock()
+				if stillFailed {
+					if st := exp.Get(failed); st != nil && st.Health == "up" {
+						addViol("failedProbeLooksHealthy", "C20/failedProbeLooksHealthy", fmt.Sprintf("the only probe of target %d so far failed, but the explorer reports health %q, error %q, series %d/%d for it: the coordinator would assign it with that estimate before any probe has succeeded", failed, st.Health, st.LastError, st.Series, st.TotalSeries))
+					}
+				}
+			}
 		default:
 			rig.mu.Unlock()
 		}
@@ -483,6 +508,85 @@ func exploreFlood(n int) *Violation {
 	return nil
 }
 
+// exploreJobUnavailable: a job is in the configuration but the scrape manager could not build its
+// client (unreadable ca_file), so probes of its targets fail before any request is sent; the
+// explorer keeps the job's targets.  A later reload repairs the job.  The asked-for target has to
+// be probed then ("a failed probe is retried after the retry interval until one succeeds or the
+// target disappears from discovery").
+func exploreJobUnavailable() (*Violation, bool) {
+	lg := quietLog()
+	const broken = `
+global:
+  scrape_interval: 15s
+scrape_configs:
+- job_name: job0
+  scrape_timeout: 2s
+- job_name: job1
+  scrape_timeout: 2s
+  scheme: https
+  tls_config:
+    ca_file: /nonexistent/kvass-verif/ca.pem
+`
+	harness := func(err error) *Violation {
+		return &Violation{Property: "C20", Clause: "harness", Signature: "harness-error", What: err.Error()}
+	}
+	cm1 := prom.NewConfigManager()
+	if err := cm1.ReloadFromRaw([]byte(broken)); err != nil {
+		// the configuration layer refuses such a file: the scenario cannot arise
+		return nil, false
+	}
+	sm := scrape.New(false, lg)
+	_ = sm.ApplyConfig(cm1.ConfigInfo())
+	if sm.GetJob("job1") != nil || sm.GetJob("job0") == nil {
+		return nil, false
+	}
+	rt := &countingRT{n: map[string]int{}}
+	sm.GetJob("job0").Cli = &http.Client{Transport: rt}
+	exp := explore.New(sm, prometheus.NewRegistry(), lg)
+	const interval = 12 * time.Millisecond
+	exp.VerifSetRetryInterval(interval)
+	_ = exp.ApplyConfig(cm1.ConfigInfo())
+	ctx, cancel := context.WithCancel(context.Background())
+	defer cancel()
+	go func() { _ = exp.Run(ctx, 2) }()
+	m := map[string][]*discovery.SDTargets{}
+	for _, h := range []uint64{2, 3} {
+		job := fmt.Sprintf("job%d", h%2)
+		m[job] = append(m[job], &discovery.SDTargets{Job: job, ShardTarget: &target.Target{Hash: h,
+			Labels: labels.FromStrings("__address__", fmt.Sprintf("h%d.jobgone:80", h), "__scheme__", "http", "__metrics_path__", "/metrics")}})
+	}
+	exp.UpdateTargets(m)
+	exp.Get(2)
+	exp.Get(3)
+	time.Sleep(5 * interval)
+	// the reload that repairs job1
+	cm2 := prom.NewConfigManager()
+	if err := cm2.ReloadFromRaw([]byte(sidecarCfg)); err != nil {
+		return harness(err), true
+	}
+	_ = sm.ApplyConfig(cm2.ConfigInfo())
+	for _, j := range []string{"job0", "job1"} {
+		if ji := sm.GetJob(j); ji != nil {
+			ji.Cli = &http.Client{Transport: rt}
+		}
+	}
+	_ = exp.ApplyConfig(cm2.ConfigInfo())
+	deadline := time.Now().Add(60 * interval)
+	ok := false
+	for !ok && time.Now().Before(deadline) {
+		time.Sleep(interval)
+		st := exp.Get(3)
+		ok = st != nil && st.Health == "up"
+	}
+	if !ok {
+		st := exp.Get(3)
+		return &Violation{Property: "C20", Clause: "eventually", Signature: "C20/eventually/jobUnavailable",
+			What: fmt.Sprintf("target 3 of job1 was asked for while the scrape manager had no client for job1 (unreadable ca_file); the job was repaired by a reload and the target stayed discovered, but no probe succeeded within 60 retry intervals; estimate now %+v", st),
+			Case: map[string]interface{}{"scenario": "jobUnavailable"}}, true
+	}
+	return nil, true
+}
+
 func runExplore(a Args) *Result {
 	res := newResult("explore", a.seed, a.tier)
 	res.Rule = "scripted interleavings of Get / discovery updates / reloads with probes of 1-3 workers that block in an in-memory transport until released with a chosen result (failure patterns before the first success), retry interval 12 ms; the linearised event log is validated against Explore.step with timers firing at any moment; non-trivial = at least one failed probe and one removal; distinct by event log"
@@ -500,6 +604,16 @@ func runExplore(a Args) *Result {
 		}
 		res.Evaluations++
 		res.count("flood_case_10300_targets")
+		v, exercised := exploreJobUnavailable()
+		if v != nil {
+			res.ImplViol = append(res.ImplViol, *v)
+		}
+		res.Evaluations++
+		if exercised {
+			res.count("job_unavailable_scenario_exercised")
+		} else {
+			res.count("job_unavailable_scenario_not_applicable")
+		}
 	}
 	type item struct {
 		c    *ECase
